@@ -39,7 +39,7 @@ from flowjax.bijections.bijection import AbstractBijection
 import vlib
 
 ID = "C13"
-GEN = ["Structure", "ArgCheckGen", "CtorsGen"]
+GEN = ["Structure", "ArgCheckGen", "CtorsGen", "WrapperGen"]
 RULE = ("(a) zoo of real instances of every concrete bijection class (incl. the private _CallableToBijection / "
         "_UnconditionalPlanar, conditional and unconditional variants, shapes with size-1 axes, random generated "
         "compositions) x {transform, transform_and_log_det, inverse, inverse_and_log_det} x x-shape lattice (all 40 shapes "
@@ -305,6 +305,60 @@ def wrapper_only(obj, xv, cv):
     return f"ok {sh(jnp.shape(x))} {osh(None if cnd is None else jnp.shape(cnd))}"
 
 
+def run_generated_wrapper_extras(c, objs):
+    """(i) the condition argument OMITTED (the closure's default) on real objects, against the generated wrapper called with its
+    generated default (`D`); (ii) the generated `__init_subclass__` against real subclasses of `AbstractBijection` created with
+    every subset of the four methods defined plainly / abstractly / not at all, plus an unrelated method."""
+    import abc
+    from flowjax.bijections.bijection import _unwrap_check_and_cast
+    probe = _unwrap_check_and_cast(lambda b, x, cnd: (x, cnd))
+    lines, reals, infos = [], [], []
+    for name, obj in objs.items():
+        shape, cs = tuple(obj.shape), (None if obj.cond_shape is None else tuple(obj.cond_shape))
+        for xv in [("arr", shape), ("arr", (1,) + shape), "none", "list"]:
+            try:
+                x, cnd = probe(obj, val_real(xv))
+                real = f"ok {sh(jnp.shape(x))} {osh(None if cnd is None else jnp.shape(cnd))}"
+            except Exception as ex:  # noqa: BLE001
+                real = canon(ex)
+            lines.append(f"gwrapper {sh(shape)} {osh(cs)} {val_tok(xv)} D")
+            reals.append(real)
+            infos.append(dict(object=name, x=str(xv), declared_shape=shape, declared_cond_shape=cs))
+    outs = vlib.run_model(lines)
+    for line, got, real, info in zip(lines, outs, reals, infos):
+        c.case(("generated-wrapper-default", info["object"], info["x"]), info["declared_cond_shape"] is not None)
+        c.count("generated-wrapper-default:" + ("accepted" if real.startswith("ok") else "rejected"))
+        if got != real:
+            c.mismatch("generated-wrapper-vs-impl", op=line, generated=got, impl=real, **info)
+    # (ii) the hook
+    four = ["transform", "transform_and_log_det", "inverse", "inverse_and_log_det"]
+    lines, reals, infos = [], [], []
+    for code in itertools.product("pa-", repeat=4):
+        for extra in (False, True):
+            ns = {}
+            for m, k in zip(four, code):
+                if k == "p":
+                    ns[m] = (lambda self, x, condition=None: x)
+                elif k == "a":
+                    ns[m] = abc.abstractmethod(lambda self, x, condition=None: x)
+            if extra:
+                ns["helper"] = (lambda self, x: x)
+            cls = type("Probe_" + "".join(code).replace("-", "n") + ("_x" if extra else ""), (AbstractBijection,), dict(ns))
+            wrapped = [k for k, v in cls.__dict__.items() if k in ns and hasattr(v, "__wrapped__")]
+            plain = [m for m in ns if not getattr(ns[m], "__isabstractmethod__", False)]
+            abstr = [m for m in ns if getattr(ns[m], "__isabstractmethod__", False)]
+            lines.append(f"ginitsub {','.join(plain) or '-'} {','.join(abstr) or '-'}")
+            reals.append(",".join(sorted(wrapped)) or "-")
+            infos.append(dict(plain=plain, abstract=abstr))
+    outs = vlib.run_model(lines)
+    for line, got, real, info in zip(lines, outs, reals, infos):
+        c.case(("generated-hook", line), True)
+        c.count("generated-hook:" + str(0 if real == "-" else len(real.split(","))) + "-wrapped")
+        g = ",".join(sorted(got.split(","))) if got != "-" else "-"
+        if g != real:
+            c.mismatch("generated-hook-vs-impl", op=line, generated=got, impl=real, **info)
+
+
 def wrapper_cases(name, obj, tier, jobs):
     """(x, cond) combinations for one object.  quick: the full x lattice at the exact condition, the full condition lattice
     at the exact x, two wrong x against the short condition list.  thorough: the full x lattice against the full condition
@@ -333,8 +387,12 @@ def run_wrapper_jobs(c, jobs):
         lines.append(f"ac wrap {sh(shape)} {osh(cs)} {val_tok(xv)} {val_tok(cv)}")
         lines.append(f"ac wrapgen {sh(shape)} {osh(cs)} {val_tok(xv)} {val_tok(cv)}")
     outs = vlib.run_model(lines)
+    # the wrapper regenerated AS A WHOLE (Gen/WrapperGen.lean, driver op `gwrapper`) around a recording method
+    wouts = vlib.run_model([f"gwrapper {sh(shape)} {osh(cs)} {val_tok(xv)} {val_tok(cv)}" for _, _, xv, cv, shape, cs in jobs])
     for i, (name, obj, xv, cv, shape, cs) in enumerate(jobs):
         model, modelgen = outs[2 * i], outs[2 * i + 1]
+        if wouts[i] != model:
+            c.mismatch("generated-wrapper-vs-model", op=f"gwrapper {sh(shape)} {osh(cs)} {val_tok(xv)} {val_tok(cv)}", generated=wouts[i], model=model)
         verdict = model.split(" ")[0]
         cls = type(obj).__name__
         x_wrong_bcast = isinstance(xv, tuple) and tuple(xv[1]) != shape and broadcastable(xv[1], shape)
@@ -350,6 +408,11 @@ def run_wrapper_jobs(c, jobs):
         if iso != model:
             c.mismatch("wrapper-model-vs-impl", object=name, cls=cls, x=str(xv), condition=str(cv),
                        declared_shape=shape, declared_cond_shape=cs, model=model, impl=iso)
+        c.case((name, "generated-wrapper", str(xv), str(cv)), nontrivial)
+        c.count("generated-wrapper:" + ("accepted" if iso.startswith("ok") else "rejected"))
+        if iso != wouts[i]:
+            c.mismatch("generated-wrapper-vs-impl", object=name, cls=cls, x=str(xv), condition=str(cv),
+                       declared_shape=shape, declared_cond_shape=cs, generated=wouts[i], impl=iso)
         # (a2) the four real methods: rejected exactly when the model rejects (same exception class); accepted calls
         # return exactly the declared shape and a scalar log-det
         for m in METHODS:
@@ -772,6 +835,7 @@ def corr(c, tier, rng):
     t2 = _t.time()
     run_dist(c, tier, rng)
     c.notes.append(f"timing: ctors {t1 - t0:.1f}s introspection {t2 - t1:.1f}s dists {_t.time() - t2:.1f}s")
+    run_generated_wrapper_extras(c, objs)  # last: it creates probe subclasses of AbstractBijection
 
 
 # ------------------------------------------------------------------ search: the property's oracle on the real code
